@@ -35,8 +35,13 @@ func TestC36(t *testing.T) {
 	m.Gate("state_cases_judged", nState, "every (message type, channel state) pair was sent and the connection's fate observed")
 	m.Gate("illegal_open_responses_rejected", 2*(nStates-1), "OPEN_CONFIRMATION/OPEN_FAILURE for a channel that is not a pending local open ended the connection")
 
+	// data / adjust right behind the OPEN while Accept is late or concurrent (race detector)
+	m.Cases("early-data", m.N(160, 1600), func(i int64, r *rand.Rand) { earlyDataCase(m, i, r) })
+	m.Gate("early_data_cases", m.N(160, 1600), "OPEN immediately followed by DATA/WINDOW_ADJUST/EXTENDED_DATA with a delayed Accept")
+
 	// deterministic schedules (batch 0 only), last because a stall leaves goroutines behind
 	m.Each("loop-exit-race", m.N(1, 3), func(i int64, r *rand.Rand) { loopExitRace(m, i, r) })
+	m.Each("reject-after-peer-close", 2, func(i int64, r *rand.Rand) { rejectAfterPeerClose(m, i, r) })
 	if m.Batch() == 0 && !m.Replaying() {
 		requestFloodProbe(m)
 	}
